@@ -4,7 +4,7 @@ from core import *
 RUNNER_CQ = {"source": "cq_run.cpp", "name": "cq_run", "defines": [], "sanitize": True}
 
 
-def mc_cfg(threads, scen, defects=(), invariants=("Ledger", "OnePlace", "NoLostWakeup", "NoDeadlock")):
+def mc_cfg(threads, scen, defects=(), invariants=("Ledger", "OnePlace", "NoLostWakeup", "NoDeadlock", "ProducerOrder")):
     return ("INIT Init\nNEXT Next\nCONSTANTS Threads = {%s}\n Scenarios <- %s\n Defects = %s\n%sCHECK_DEADLOCK FALSE\n"
             % (", ".join(map(str, threads)), scen, tla_value(set(defects)), "".join("INVARIANT %s\n" % i for i in invariants)))
 
@@ -16,6 +16,7 @@ ASSUME = ["TLC and the CommunityModules JSON reader are correct",
           "schedules: exhaustive up to the stated preemption bound where the evidence says dfs_exhausted_within_bound, sampled otherwise"]
 
 CORPUS_D5 = {"module": "ConcQueueMC", "cfg": mc_cfg([1, 2], "SDqnWaiter", defects=["dqn_unlocked"]), "defect": "dqn_unlocked", "scenario": "don,nq,dof|w,pa"}
+CORPUS_PB = {"module": "ConcQueueMC", "cfg": mc_cfg([1, 2], "SPutBack", defects=["putback_end"]), "defect": "putback_end", "scenario": "nq,nq|pi,pa"}
 CORPUS_EO = {"module": "ConcQueueMC", "cfg": mc_cfg([1, 2, 3], "SEmptyOrder", defects=["empty_order"]), "defect": "empty_order", "scenario": "nq,pa|eq"}
 
 
@@ -27,7 +28,7 @@ def c06(tier, seed):
     models = [{"module": "ConcQueueMC", "tag": "2threads", "cfg": mc_cfg([1, 2], "Scen2")}]
     if not quick:
         models.append({"module": "ConcQueueMC", "tag": "3threads", "cfg": mc_cfg([1, 2, 3], "Scen3"), "heap": "16g"})
-    return {"models": models, "runner": RUNNER_CQ, "trace_module": "TraceCQ", "scenarios": scen, "corpus": [],
+    return {"models": models, "runner": RUNNER_CQ, "trace_module": "TraceCQ", "scenarios": scen, "corpus": [CORPUS_PB],
             "rule": "ConcQueue.tla model-checked over all interleavings of the scenario sets; on the real EventQueue each scenario (producers x consumers "
                     "process/processOne/processIf/processUntil/takeEvent/peekEvent/clearEvents) is explored by depth-first schedule enumeration with a "
                     "preemption bound plus seeded random schedules under the controlled scheduler; every execution's API history is validated by "
